@@ -277,7 +277,7 @@ def _session(job):
         sc['observe'] = 'light'
         sc['p_update'] = rng.choice([0.1, 0.3, 0.5])
         sc['update_kinds'] = rng.sample(['trail_sl', 'tp_ladder', 'sl_ladder', 'liquidate', 'near_tp', 'near_tp', 'add_market', 'add_market',
-                                         'reweight_tp', 'reweight_tp', 'reweight_sl'],
+                                         'reweight_tp', 'reweight_tp', 'reweight_sl', 'trail_sl_inplace', 'trail_sl_inplace', 'move_tp_inplace'],
                                         rng.randint(2, 4))
         sc['on_increased'] = rng.choice(['retarget', 'retarget', None])
         sc['cancel_policy'] = rng.choice(['rnd', 'rnd', 'never', 'always'])
